@@ -14,12 +14,12 @@ package main
 
 import (
 	"context"
-	"time"
 	"fmt"
 	"math/rand"
 	"sort"
 	"strings"
 	"sync"
+	"time"
 
 	"github.com/tikv/pd/pkg/typeutil"
 	"github.com/tikv/pd/server"
